@@ -223,12 +223,53 @@ def check_case(case) -> Outcome:
             shutil.rmtree(workdir, ignore_errors=True)
 
 
+def check_shipped(case) -> Outcome:
+    """serialized-and-shipped execution on the real processes executor (tasks submitted in batches, optionally with backup
+    tasks) gives the same results as in-process execution of the same unoptimized plan"""
+    prog = case["prog"]
+    labels = set(P.prog_labels(prog)) | {"mode:shipped-real-processes", f"batch={case['exec_opts'].get('batch_size')}", f"backups={case['exec_opts'].get('use_backups')}"}
+    ref_case = dict(case, executor="schedule", exec_opts=None)
+    _, r0 = c01.run_case(ref_case)
+    if r0.phase is not None:
+        labels.add(f"declined:{r0.phase}:{r0.exc_type}")
+        return Outcome(labels=tuple(labels))
+    _, r1 = c01.run_case(case)
+    fails = []
+    if r1.phase is not None:
+        fails.append(Failure(f"shipped-run-failed:{r1.exc_type}", f"in-process run succeeded; processes executor with {case['exec_opts']}: {r1.phase} {r1.exc_type} {str(r1.exc)[:200]}"))
+    else:
+        for oid, a, b in zip(prog["outputs"], r0.results, r1.results):
+            a, b = np.asarray(a), np.asarray(b)
+            if a.shape != b.shape or a.dtype != b.dtype or not np.array_equal(a, b, equal_nan=(a.dtype.kind in "fc")):
+                nin = len(prog["inputs"])
+                outop = prog["nodes"][oid - nin]["op"] if oid >= nin else "input"
+                fails.append(Failure("shipped-result-differs", f"output node {oid} ({outop}) differs between in-process and shipped execution ({case['exec_opts']})"))
+                break
+    ntasks = sum(1 for _ in r1.plan.dag.nodes()) if getattr(r1, "plan", None) is not None else 0
+    return Outcome(nontrivial=P.multi_block(prog), labels=tuple(labels), failures=tuple(fails))
+
+
+def shipped_cases(opts):
+    from hypothesis import strategies as st
+
+    @st.composite
+    def cases(draw):
+        prog = draw(P.programs("fusion-rich", max_ops=3, min_ops=2, opts=opts))
+        return {"kind": "shipped", "prog": prog, "executor": "processes", "optimize": False, "perm_seed": draw(st.integers(0, 10**6)),
+                "exec_opts": {"batch_size": draw(st.sampled_from([1, 2, 2, 3])), "use_backups": draw(st.sampled_from([None, None, True])),
+                              "compute_arrays_in_parallel": draw(st.booleans())}}
+
+    return cases()
+
+
 def shards(tier):
     if tier == "quick":
         return [{"kind": "program", "name": f"s{i}", "n": 70, "rotate": 17 + i * 41} for i in range(6)] + [
-            {"kind": "program", "name": "subproc", "n": 3, "rotate": 2, "modes": ["subprocess"], "max_ops": 2}]
+            {"kind": "program", "name": "subproc", "n": 3, "rotate": 2, "modes": ["subprocess"], "max_ops": 2}] + [
+            {"kind": "shipped", "name": f"shipped{i}", "n": 12, "rotate": 8 + i * 31} for i in range(2)]
     return [{"kind": "program", "name": f"s{i}", "n": 1200, "rotate": 17 + i * 41} for i in range(14)] + [
-        {"kind": "program", "name": f"subproc{i}", "n": 25, "rotate": 2 + i, "modes": ["subprocess"], "max_ops": 2} for i in range(2)]
+        {"kind": "program", "name": f"subproc{i}", "n": 25, "rotate": 2 + i, "modes": ["subprocess"], "max_ops": 2} for i in range(2)] + [
+        {"kind": "shipped", "name": f"shipped{i}", "n": 150, "rotate": 8 + i * 31} for i in range(2)]
 
 
 def run_shard(spec, seed, tier) -> Acc:
@@ -236,6 +277,10 @@ def run_shard(spec, seed, tier) -> Acc:
     if spec["kind"] == "__corpus__":
         return core.corpus_shard(sys.modules[__name__], acc)
     is_known, _ = core.known_matcher(ID)
+    if spec["kind"] == "shipped":
+        core.hyp_run(shipped_cases({"rotate": spec.get("rotate", 0), "allow_zero": False}), check_shipped, seed=seed, max_examples=spec["n"], acc=acc,
+                     budget_s=420 if tier == "quick" else 3000, shrink=False, is_known=is_known)
+        return acc
     kw = {}
     if spec.get("modes"):
         kw["modes"] = tuple(spec["modes"])
@@ -245,4 +290,6 @@ def run_shard(spec, seed, tier) -> Acc:
 
 
 def replay(case):
+    if case.get("kind") == "shipped":
+        return check_shipped(case).all_failures()
     return check_case(case).all_failures()
